@@ -296,7 +296,10 @@ LinearSampleOK(fmt, lf, rf, x, o) ==
                       IN /\ DLe(DAbs(DSub(ov, v)), t)
                          /\ DLe(DSub(lo, t), ov) /\ DLe(ov, DAdd(hi, t))
           ELSE /\ DLt(DAbs(DSub(ov, v)), IntTol)          \* integer v  =>  o = v
-               /\ DLe(lo, ov) /\ DLe(ov, hi)               \* an integer inside an integer-ended interval
+               \* inside the interval of the two frames up to the same slack: a blend that is rounded in f64
+               \* and then truncated to the integer format (e.g. l(1-x) + r x on a constant input) may land one
+               \* LSB outside -- "up to float rounding"; the property does not fix the evaluation order
+               /\ DLt(DSub(lo, ov), IntTol) /\ DLt(DSub(ov, hi), IntTol)
 FloorSampleOK(fmt, lf, o) == SWellFormed(fmt, o) /\ SSame(fmt, lf, o)
 
 \* a whole frame (sequence of channels)
